@@ -298,9 +298,24 @@ def uncertainty_tokenizer(input_string: str) -> Generator[TokenInfo, None, None]
             )
             std_dev = next(toklist)
             if "." not in std_dev.string:
+                unc_text = "0." + std_dev.string
+                nom_text = nominal_value.string
+                if (
+                    std_dev.string.isdigit()
+                    and nom_text != "."
+                    and nom_text.replace(".", "", 1).isdigit()
+                ):
+                    # concise notation: the digits count in units of the last
+                    # digit of the nominal value: 1.23(4) = 1.23 +/- 0.04
+                    ndec = len(nom_text.partition(".")[2])
+                    if ndec:
+                        padded = std_dev.string.rjust(ndec + 1, "0")
+                        unc_text = padded[:-ndec] + "." + padded[-ndec:]
+                    else:
+                        unc_text = std_dev.string
                 std_dev = tokenize.TokenInfo(
                     type=std_dev.type,
-                    string="0." + std_dev.string,
+                    string=unc_text,
                     start=std_dev.start,
                     end=std_dev.end,
                     line=line,
